@@ -584,7 +584,7 @@ func corpus() {
 	emitSeq(cfgT{}, []opT{ev("ing", 'u', 0, 2).valid(false, true), swapOp})
 	emitSeq(cfgT{}, []opT{ev("ing", 'u', 0, 2).valid(true, false), swapOp})
 	emitSeq(all, []opT{ev("gwclsB1", 'u', -1, 2).valid(false, true), ev("gwA2", 'u', 0, 2).valid(true, false), swapOp})
-	// (finding) a ConfigMap emptied to nil data is announced as "no change"
+	// (fixed f69446d, regression witness) a ConfigMap emptied to nil data was announced as "no change"
 	emitSeq(cfgT{}, []opT{ev("cm", 'c', 0, 0).withData(3), swapOp, ev("cm", 'u', 0, 0).withData(-1), swapOp, swapOp})
 	emitSeq(cfgT{}, []opT{ev("cm", 'c', 0, 1).withData(3), swapOp, ev("cm", 'u', 0, 1).withData(5), ev("cm", 'u', 0, 1).withData(-1), swapOp, swapOp})
 	// chaining, empty (non-nil) data, unrelated ConfigMap, delete of the ConfigMap
@@ -693,9 +693,6 @@ func randomConc(r *gen.Rng, cases, perGroup int) {
 					if o.label >= 0 {
 						o.label = uniq
 					}
-				}
-				if o.kind == "cm" && o.data < 0 {
-					o.data = 0
 				}
 				groups[g] = append(groups[g], o)
 			}
